@@ -55,11 +55,24 @@ impl Ctx {
             self.log.compared += 1;
             if replies[i] != self.imps[i] {
                 self.log.disagree(Disagreement {
-                    op: clip(&self.ops[i], 4000),
+                    op: clip(&self.ops[i], 60000),
                     imp: clip(&self.imps[i], 800),
                     model: clip(&replies[i], 800),
                     note: self.notes[i].clone(),
                 });
+                // the nesting-boundary family: a body structure within the nesting budget is an
+                // encoding of a value (RT.EncBody), so what the model reads is the value the
+                // implementation has to deliver
+                if self.notes[i] == "nesting-boundary" && replies[i].starts_with("OK") {
+                    let input = self.ops[i].trim_start_matches("parse ").to_string();
+                    let what = format!(
+                        "a FETCH reply whose body structure nests within the budget is read by the model ({}) but the implementation answers {}",
+                        clip(&replies[i], 120),
+                        clip(&self.imps[i], 120)
+                    );
+                    let op = format!("expect {} {}", input, hex(replies[i].as_bytes()));
+                    self.log.oracle_fail(OracleFailure { class: "reply-unreadable".to_string(), what, ops: vec![op], known: String::new() });
+                }
             }
         }
         self.ops.clear();
@@ -694,6 +707,20 @@ fn main() {
             s.spawn(move || {
                 let mut ctx = Ctx::new(&model);
                 let mut rng = Rng::new(seed.wrapping_mul(1000003).wrapping_add(shard as u64));
+                // around the nesting budget of body structures (1..40 levels of every kind of nesting): the
+                // implementation has to read what the model reads - and for C16 a reply to BODY /
+                // BODYSTRUCTURE / FULL that the model reads is a reply the client must be able to read
+                for d in 1..=40usize {
+                    if d % shards != shard {
+                        continue;
+                    }
+                    for (input, label) in vh_proto::parsecommon::nesting_boundary_inputs(d) {
+                        let out = ctx.eval(&input, "nesting-boundary");
+                        ctx.log.count("nesting-boundary");
+                        ctx.log.nontrivial(&hex(&input));
+                        let _ = (out, label);
+                    }
+                }
                 match prop.as_str() {
                     "C03" => run_c03(&mut ctx, &mut rng, thorough, shard, shards, false),
                     "C08" => run_c03(&mut ctx, &mut rng, thorough, shard, shards, true),
